@@ -84,7 +84,8 @@ _SCHED_RULE = ("Generated: programs of 2..4 threads x 1..3 lock operations with 
                "atomics/futex). Schedules: random tapes, bounded preemption (<=4 forced switches, strict run-to-block otherwise), "
                "PCT-like priorities with <=3 priority drops; event tapes choose which waiter a wake picks, spurious futex returns, "
                "EINTR and spurious weak-CAS failures. Sub-check *-exh2 ENUMERATES every placement of <=2 forced preemptions for all "
-               "two-thread programs with <=2 operations per thread. Oracle: exclusion monitor, happens-before race detector on the "
+               "two-thread programs with <=2 operations per thread; *-exh3 does the same for all three-thread programs with one "
+               "operation per thread, with every choice of the thread switched to. Oracle: exclusion monitor, happens-before race detector on the "
                "protected value (vector clocks; release/acquire edges only as the code's orderings provide them), last-written-value "
                "model, deadlock state (no runnable thread), try-variants never park, no panic, lock free again at the end. "
                "Non-trivial = at least one futex_wait actually blocked or a context switch happened while the lock was held; "
